@@ -2,6 +2,7 @@ package appdrv
 
 import (
 	"fmt"
+	"github.com/holiman/uint256"
 	rctypes "github.com/rigochain/rigo-go/ctrlers/types"
 	"math/big"
 
@@ -234,6 +235,30 @@ func init() {
 			m = cloneTx(good)
 			m.Payload = &rctypes.TrxPayloadUnstaking{TxHash: make([]byte, 32)}
 			s.do(Op{Kind: "deliver", Tx: HexTx(Encode(m)), RefTx: HexTx(good), Tag: "staking:injected"})
+			s.End()
+			s.Blocks(1, allHdr)
+		}},
+		Directed{"evm_price_above", []string{"C02", "C16", "C05"}, fam(0), func(s *Script) {
+			// contract transactions and transfers to a contract that offer more than the governance gas price
+			kr := s.R.KR
+			chain := s.Sc.Genesis.ChainID
+			s.Blocks(2, allHdr)
+			s.Begin(allHdr)
+			ev, cnt := s.Deploy(4, prog("counter", nil), 5, "0", cgas)
+			s.expect(OK(ev), "deploy counter")
+			s.End()
+			s.Begin(allHdr)
+			for i, mult := range []uint64{2, 3} {
+				hi := new(uint256.Int).Mul(s.price(), uint256.NewInt(mult))
+				if i == 1 {
+					hi = new(uint256.Int).Add(s.price(), uint256.NewInt(1))
+				}
+				s.DeliverRaw(s.B.Sign(web3.NewTrxContract(kr.Addr(5), cnt, s.nonce(5), cgas, hi, Amt("0"), nil), 5, chain), "", "contract:call:pricehigh")
+				s.DeliverRaw(s.B.Sign(web3.NewTrxTransfer(kr.Addr(5), cnt, s.nonce(5), cgas, hi, Amt("7")), 5, chain), "", "transfer:tocontract:pricehigh")
+				s.DeliverRaw(s.B.Sign(web3.NewTrxContract(kr.Addr(5), kr.Addr(6), s.nonce(5), cgas, hi, Amt("9"), nil), 5, chain), "", "contract:toplain:pricehigh")
+				s.DeliverRaw(s.B.Sign(web3.NewTrxTransfer(kr.Addr(5), kr.Addr(6), s.nonce(5), s.gas(), hi, Amt("9")), 5, chain), "", "transfer:pricehigh")
+			}
+			s.expect(OK(s.CallC(5, cnt, nil, "0", cgas)), "a call at the governance price")
 			s.End()
 			s.Blocks(1, allHdr)
 		}},
